@@ -235,30 +235,37 @@ func (g *pgen) snippet(inLoop bool) {
 		switch g.n("arity", 6) {
 		case 0:
 			g.pushWord()
-			a.op([]evm.OpCode{evm.ISZERO, evm.NOT}[g.n("op1", 2)], evm.POP)
+			a.op([]evm.OpCode{evm.ISZERO, evm.NOT}[g.n("op1", 2)])
+			g.sink()
 		case 1:
 			g.pushWord()
 			g.pushWord()
 			g.pushWord()
-			a.op([]evm.OpCode{evm.ADDMOD, evm.MULMOD}[g.n("op3", 2)], evm.POP)
+			a.op([]evm.OpCode{evm.ADDMOD, evm.MULMOD}[g.n("op3", 2)])
+			g.sink()
 		default:
 			g.pushWord()
 			g.pushWord()
-			a.op(binaryOps[g.n("op2", len(binaryOps))], evm.POP)
+			a.op(binaryOps[g.n("op2", len(binaryOps))])
+			g.sink()
 		}
 	case "env":
 		switch g.n("envkind", 5) {
 		case 0:
 			g.pushAddrOperand()
-			a.op([]evm.OpCode{evm.BALANCE, evm.EXTCODESIZE, evm.EXTCODEHASH}[g.n("envaddr", 3)], evm.POP)
+			a.op([]evm.OpCode{evm.BALANCE, evm.EXTCODESIZE, evm.EXTCODEHASH}[g.n("envaddr", 3)])
+			g.sink()
 		case 1:
 			a.pushBig(pickB(g, "blockno", []*big.Int{big.NewInt(0), big.NewInt(1), big.NewInt(blockNumber - 1), big.NewInt(blockNumber), big.NewInt(blockNumber + 1), pow2(64), pow2m1(256)}))
-			a.op(evm.BLOCKHASH, evm.POP)
+			a.op(evm.BLOCKHASH)
+			g.sink()
 		case 2:
 			a.pushBig(pickB(g, "cdoff", []*big.Int{big.NewInt(0), big.NewInt(4), big.NewInt(31), big.NewInt(32), big.NewInt(100), pow2m1(64), pow2m1(256)}))
-			a.op(evm.CALLDATALOAD, evm.POP)
+			a.op(evm.CALLDATALOAD)
+			g.sink()
 		default:
-			a.op(nullaryOps[g.n("op0", len(nullaryOps))], evm.POP)
+			a.op(nullaryOps[g.n("op0", len(nullaryOps))])
+			g.sink()
 		}
 	case "copy":
 		g.pushMemLen(wild)
@@ -286,7 +293,8 @@ func (g *pgen) snippet(inLoop bool) {
 		switch g.n("memop", 3) {
 		case 0:
 			g.pushMemOff(wild)
-			a.op(evm.MLOAD, evm.POP)
+			a.op(evm.MLOAD)
+			g.sink()
 		case 1:
 			g.pushWord()
 			g.pushMemOff(wild)
@@ -299,7 +307,8 @@ func (g *pgen) snippet(inLoop bool) {
 	case "sha3":
 		g.pushMemLen(wild)
 		g.pushMemOff(wild)
-		a.op(evm.SHA3, evm.POP)
+		a.op(evm.SHA3)
+		g.sink()
 	case "sstore":
 		if g.n("sval", 3) == 0 {
 			a.pushU(0)
@@ -310,7 +319,8 @@ func (g *pgen) snippet(inLoop bool) {
 		a.op(evm.SSTORE)
 	case "sload":
 		g.pushSlot()
-		a.op(evm.SLOAD, evm.POP)
+		a.op(evm.SLOAD)
+		g.sink()
 	case "log":
 		nt := g.n("topics", 5)
 		for i := 0; i < nt; i++ {
@@ -343,7 +353,8 @@ func (g *pgen) snippet(inLoop bool) {
 		case 1:
 			g.pushAddrOperand() // holder
 			g.pushToken()
-			a.op(evm.BALANCETOKEN, evm.POP)
+			a.op(evm.BALANCETOKEN)
+			g.sink()
 		default:
 			g.pushAddrOperand() // to
 			g.pushToken()
@@ -400,6 +411,23 @@ func (g *pgen) snippet(inLoop bool) {
 		default:
 			a.op(evm.SWAP1 + evm.OpCode(g.n("swapn", 16)))
 		}
+	}
+}
+
+// sink consumes the value a snippet computed: mostly dropped, otherwise made observable (storage,
+// memory that a later RETURN / LOG / SHA3 may read, a log topic), so that a value that differs
+// between two runs shows up in their results.
+func (g *pgen) sink() {
+	a := g.a
+	switch c := g.n("sink", 10); {
+	case c <= 4:
+		a.op(evm.POP)
+	case c <= 6:
+		a.pushU(uint64(g.n("sinkslot", 4))).op(evm.SSTORE)
+	case c <= 8:
+		a.pushU([]uint64{0, 32, 64}[g.n("sinkmem", 3)]).op(evm.MSTORE)
+	default:
+		a.pushU(0).pushU(0).op(evm.LOG1)
 	}
 }
 
